@@ -292,6 +292,51 @@ def read_grid(task: dict) -> dict:
                     m = "periodic" if shuffle == 0 else ("epochs" if iface == "rust" else "member")
                     o = {"want": ref, "got": got, "mode": m}
                 out["obs"].append(dict({"sessions": []}, **o, what=desc))
+        # overlapping passes (a training pass and a held-out pass consumed in lock-step; the shorter one is restarted
+        # while the longer one is still open): every completed pass must still yield exactly its split
+        if mode == "bag" and task.get("lockstep") and len(committed) >= 2:
+            order = sorted(committed, key=lambda s_: len(committed[s_]))
+            small, large = order[0], order[-1]
+            for iface in task["lockstep"]:
+                if not readers.supports(iface, fmt, comp):
+                    continue
+
+                def lock():
+                    res = []
+                    big = readers.iterate(handles["reopened"], iface, large, repeat=False, shuffle=0,
+                                          file_parallelism=2)
+                    got_big, big_done = [], False
+                    for _pass in range(3):
+                        it = readers.iterate(handles["reopened"], iface, small, repeat=False, shuffle=0,
+                                             file_parallelism=2)
+                        got = []
+                        for ex in it:
+                            got.append(readers.ex_id(ex))
+                            if not big_done:
+                                try:
+                                    got_big.append(readers.ex_id(next(big)))
+                                except StopIteration:
+                                    big_done = True
+                        res.append((small, got))
+                    if not big_done:
+                        got_big += [readers.ex_id(e) for e in big]
+                    res.append((large, got_big))
+                    return res
+
+                status, val = _timed(lock)
+                out["reads"] += 1
+                desc = f"{fmt}/{comp} {task['history']} {iface}: passes over '{small}' and '{large}' consumed in lock-step"
+                if status == "hang":
+                    out["problems"].append(("hang", desc + ": no result within the watchdog", {"iface": iface}))
+                    return out
+                if status == "raise":
+                    # a loud failure of overlapping passes is outside C02 (which speaks about what is yielded); it is
+                    # reported in the evidence, not as a violation
+                    out.setdefault("notes", []).append(desc + f": raised {type(val).__name__}: {str(val)[:160]}")
+                    continue
+                for split, got in val:
+                    out["obs"].append({"want": committed[split], "got": got, "mode": "bag", "sessions": [],
+                                       "what": desc + f" (pass over {split})"})
     except Exception:  # pylint: disable=broad-except
         out["error"] = traceback.format_exc()
     finally:
@@ -299,7 +344,7 @@ def read_grid(task: dict) -> dict:
     return out
 
 
-def grid_tasks(ctx: Ctx, mode: str, configs, formats=None):
+def grid_tasks(ctx: Ctx, mode: str, configs, formats=None, lockstep=None):
     formats = formats or [("fb", ""), ("npz", ""), ("tfrec", ""), ("fb", "LZ4"), ("tfrec", "GZIP"), ("npz", "ZIP"),
                           ("fb", "GZIP")]
     if ctx.quick:
@@ -310,7 +355,7 @@ def grid_tasks(ctx: Ctx, mode: str, configs, formats=None):
             if ctx.quick and (hi + fi) % 2 and hname != "nested_and_continued":
                 continue
             tasks.append({"labels": labels, "history": hname, "fmt": fmt, "compression": comp, "mode": mode,
-                          "configs": configs, "eps": 2 + (hi % 2)})
+                          "configs": configs, "eps": 2 + (hi % 2), "lockstep": lockstep})
     return tasks
 
 
@@ -341,10 +386,11 @@ def judge_obs(ctx: Ctx, obs, prop: str, kind_of=lambda o: o["mode"]):
     return n_false
 
 
-def run_grid(ctx: Ctx, prop: str, mode: str, configs, problem_kinds=("hang", "raised", "process_record", "stream-ended")):
+def run_grid(ctx: Ctx, prop: str, mode: str, configs, problem_kinds=("hang", "raised", "process_record", "stream-ended"),
+             lockstep=None):
     from .. import rustext
     rustext.build()
-    tasks = grid_tasks(ctx, mode, configs)
+    tasks = grid_tasks(ctx, mode, configs, lockstep=lockstep)
     try:
         outs = H.run_histories(tasks, fn=read_grid)
     finally:
@@ -355,6 +401,9 @@ def run_grid(ctx: Ctx, prop: str, mode: str, configs, problem_kinds=("hang", "ra
         if o["error"]:
             raise MachineryError(o["error"])
         reads += o["reads"]
+        for note in o.get("notes", []):
+            if note not in ctx.notes:
+                ctx.notes.append(note)
         for kind, what, cfg in o["problems"]:
             if kind in problem_kinds:
                 ctx.violation(f"{prop}|kind={kind}|iface={cfg['iface']}", what,
